@@ -181,7 +181,7 @@ class Pair:
         return False
 
     # ------------------------------------------------------------------ exploration
-    def explore(self, body, start_bb, holder, max_states=20000):
+    def explore(self, body, start_bb, holder, max_states=20000, skip_stmts=0):
         """Explore from the entry of start_bb with the obligation held by `holder`
         (None = raw, int = local).  Returns (violations, transfers) where
         violations = [(kind, where, path)] and transfers = [(bb, how)]"""
@@ -203,6 +203,8 @@ class Pair:
             forgot = None
             # statements: moves of the holder
             for j, s in enumerate(g.stmts(bb)):
+                if n == 1 and j < skip_stmts:
+                    continue
                 if s["k"] != "assign":
                     continue
                 rv = s["rv"]
@@ -313,6 +315,11 @@ class Pair:
                     continue
                 dq.append((tgt, h, path + (tgt,)))
         return viol, transfers
+
+    def explore_from_stmt(self, body, bb, idx, holder):
+        """explore with the obligation held by `holder` from just after statement idx of block bb:
+        the remaining statements of bb are interpreted (moves), then its terminator"""
+        return self.explore(body, bb, holder, skip_stmts=idx + 1)
 
     def describe_path(self, body, path, limit=8):
         g = graph(body)
